@@ -151,7 +151,15 @@ def main() -> int:
         import_s = time.time() - t_start
         rec["import_s"] = round(import_s, 2)
         twin_dir = os.environ.get("VERIF_TWIN_DIR") or os.path.dirname(outp)
-        if os.environ.get("VERIF_NO_TWIN") != "1":
+        msgs, stats, wall = analyse(fn, timeout)
+        rec["messages"] = msgs
+        rec["verdict"] = verdict_of(msgs)
+        rec["paths"] = stats.get("num_paths", 0)
+        rec["stats"] = stats
+        rec["solver_wall_s"] = round(wall, 2)
+        if os.environ.get("VERIF_NO_TWIN") != "1" and rec["verdict"] != "counterexample":
+            # the reachability twin matters only for a verdict that could be vacuous; a counterexample is its own witness of reachability
+            # (and a twin over a condition that fails on every path would only run into its time limit)
             twin = make_twin(mod, fn, twin_dir)
             # (the twin gets the per-path allowance of the main run: a harness whose first symbolic path is slow is not vacuous)
             tmsgs, tstats, twall = analyse(twin, min(timeout, 120.0), report_all=True, per_path=max(5.0, float(timeout) / 4))
@@ -162,12 +170,6 @@ def main() -> int:
                 "wall_s": round(twall, 2),
                 "witness": next((m["call"] for m in tmsgs if m["call"]), None),
             }
-        msgs, stats, wall = analyse(fn, timeout)
-        rec["messages"] = msgs
-        rec["verdict"] = verdict_of(msgs)
-        rec["paths"] = stats.get("num_paths", 0)
-        rec["stats"] = stats
-        rec["solver_wall_s"] = round(wall, 2)
         cx = [m for m in msgs if m["state"] in ("POST_FAIL", "EXEC_ERR", "POST_ERR")]
         rec["counterexamples"] = [
             {"call": m["call"], "message": m["message"]} for m in cx if m["call"]
